@@ -67,6 +67,11 @@ class FloatLiteral(StrCompareMixin, _Literal):
     def __eq__(self, other):
         if isinstance(other, FloatLiteral):
             return self.value == other.value and self.kind == other.kind
+        if isinstance(other, pmbl.Expression):
+            # Do not evaluate other expression nodes via ``float(other)``
+            # (pymbolic's ``Expression.__float__``): that makes the comparison
+            # asymmetric and can raise, e.g., ``ZeroDivisionError``
+            return False
 
         try:
             return float(self.value) == float(other)
